@@ -20,7 +20,10 @@ def fetch_H(drv, bdir, points, tag="peelH"):
     with open(beh, "w") as f:
         for p in points:
             f.write("create 0 %d dec\n%s\nrelease 0\nreset\n" % (p.codec, p.params_line(0)))
-    vlib.run_driver(drv, beh, trc)
+    try:
+        vlib.run_driver(drv, beh, trc)
+    except vlib.Infra:
+        return None         # a crash while configuring is for the validated workload to report, not for this pre-pass
     out = []
     with open(trc) as f:
         for line in f:
@@ -28,7 +31,6 @@ def fetch_H(drv, bdir, points, tag="peelH"):
                 continue
             ev = json.loads(line)
             out.append(ev["H"])
-    os.remove(trc)
     if len(out) != len(points):
         return None
     return out
@@ -36,7 +38,7 @@ def fetch_H(drv, bdir, points, tag="peelH"):
 
 class Sim:
     def __init__(self, H, k, n):
-        self.H = H
+        self.H = H = [[c for c in row if isinstance(c, int) and 0 <= c < n] for row in H]
         self.k = k
         self.n = n
         self.cols = [[] for _ in range(n)]
